@@ -157,7 +157,7 @@ def branch_templates(ctx, rule):
             # the helper interpreted on the same (url class x protocol spelling) cells, extra spellings of each class included
             from ..microeval import Raised
             out = []
-            extra = {"no-protocol": ["lemonde.fr/login?next=https://abo.lemonde.fr/", "a.com"], "protocol-relative": ["//a.com"], "has-protocol": ["HTTP://a.com/x", "https://a.com/?u=b.org", "git://a.com/x", "P://a.com/x", "feed://www.a.com/rss"]}
+            extra = {"no-protocol": ["lemonde.fr/login?next=https://abo.lemonde.fr/", "a.com"], "protocol-relative": ["//a.com", "///a.com/x"], "has-protocol": ["HTTP://a.com/x", "https://a.com/?u=b.org", "git://a.com/x", "P://a.com/x", "feed://www.a.com/rss"]}
             for cname, m, r, rep in CLASSES:
                 for u in [rep] + extra[cname]:
                     for proto in (("p", "p:", "p://") if name != "strip_protocol" else (None,)):
@@ -185,7 +185,7 @@ def branch_templates(ctx, rule):
             arm = F.resolve_under(t, val)
             bad = F.opaque_uses(P.strip_inl(arm), url, whole)  # an inlined helper that hands the url back is not a use of it
             ctx.ob(rule, "%s/%s/url-passed-whole" % (name, cname), not bad,
-                   "%s cuts or inspects the url (%s) instead of passing it along whole" % (name, "; ".join(P.show(b, maxdepth=3) for b in bad[:2])), site)
+                   "%s cuts or inspects the url (%s) instead of passing it along whole" % (name, "; ".join(P.show(b, maxdepth=3) for b in bad[:2])), site, cells=proto_cells)
             for proto in (("p", "p:", "p://") if name != "strip_protocol" else ("p",)):
                 n += 1
                 try:
